@@ -84,10 +84,15 @@ class Prober:
                     if check(v, a) is not True:
                         raise common.HarnessError(f"history step {a.__name__} on {v} did not pass")
                 base = read()
+                # when the internals are unreadable (adapter fallback: state parsed from
+                # print_bindings()) the hidden exact/broadcastable flag of a '*name' binding cannot be
+                # seen changing: every accepted probe is then assumed to have changed the context
+                blind = any(x[1] is None for x in base[1]) or not adapter._calibrate()["state"]
                 while pos < n:
-                    out.append(check(values[pos], ann))
+                    r = check(values[pos], ann)
+                    out.append(r)
                     pos += 1
-                    if read() != base:
+                    if read() != base or (blind and r is True):
                         self.rebuilds += 1
                         break
             if adapter.stack_depth() not in (0, -1):
